@@ -37,6 +37,7 @@ FUNCS = {
         requires=[('timers_ok', 'timers_ok(self)', [])],
         modifies=MCLOSE_MODS,
         ensures=[
+            ('keepalive_kept_unless_sent', 'ka_kept(self)', ['C14']),
             ('closes_iff_terminating_and_idle', 'closed(self) == (old(closed(self)) or (self._in_term and idle_spec(self)))',
              ['C09', 'C14']),
             # C09: nothing may be cut off by the close: no transfer queued / in progress / unacknowledged and
@@ -61,6 +62,7 @@ FUNCS = {
                   'ghost.tx_live'] + MCLOSE_MODS,
         loops={0: dict(invariant=FLUSH_LOOP_INV)},
         ensures=[
+            ('keepalive_kept_unless_sent', 'ka_kept(self)', ['C14']),
             ('queue_flushed', 'length(self._tx_pend_start) == 0', ['C09']),
             ('flushed_reported_not_sent', 'forall(i, 0, length(old(self._tx_pend_start)), '
                                           'contains(ghost.tx_finished, unwrap(old(self._tx_pend_start)[i].transfer_id)))',
@@ -92,6 +94,7 @@ FUNCS = {
         modifies=['ContactHandler._tx_pend_ack', 'ContactHandler._tx_map', 'BundleItem.ack_length', 'ghost.signals',
                   'ghost.tx_finished', 'ghost.tx_live'] + MCLOSE_MODS,
         ensures=[
+            ('keepalive_kept_unless_sent', 'ka_kept(self)', ['C14']),
             ('success_only_on_final_ack', 'implies(not flag(flags, 1), ghost.tx_finished == old(ghost.tx_finished) and '
                                           'self._tx_map == old(self._tx_map) and self._tx_pend_ack == old(self._tx_pend_ack))',
              ['C01', 'C18']),
@@ -126,6 +129,7 @@ FUNCS = {
                   'ContactHandler._tx_length', 'ghost.signals', 'ghost.tx_finished', 'ghost.tx_live', 'ghost.cur_xid']
         + TRIGGER_MODS + MCLOSE_MODS,
         ensures=[
+            ('keepalive_kept_unless_sent', 'ka_kept(self)', ['C14']),
             ('refused_transfer_finished', 'contains(ghost.tx_finished, transfer_id) and '
                                           'not contains(self._tx_map, transfer_id)', ['C18']),
             ('other_transfers_untouched', 'self._tx_pend_start == old(self._tx_pend_start) and '
